@@ -576,9 +576,14 @@ func (ex *exec) callSSA(caller *frame, callpos token.Pos, fn *ssa.Function, args
 		return nil
 	}
 	if m.intr != nil {
-		return m.intr(ex, caller, fn, args)
-	}
-	if !m.interpret || fn.Blocks == nil {
+		r := m.intr(ex, caller, fn, args)
+		if _, fall := r.(notHandled); !fall {
+			return r
+		}
+		if fn.Blocks == nil {
+			panic(unsupported("callee %s (intrinsic declined, no body)", m.name))
+		}
+	} else if !m.interpret || fn.Blocks == nil {
 		panic(unsupported("callee %s", m.name))
 	}
 	ex.depth++
@@ -652,6 +657,9 @@ func (ex *exec) runFrame(fr *frame) {
 }
 
 type internalError struct{ msg string }
+
+// notHandled is returned by an intrinsic that declines a call; the function body is interpreted instead.
+type notHandled struct{}
 
 // executePhis executes the phi-nodes at the start of the current block and returns the non-phi instructions.
 func executePhis(fr *frame) []ssa.Instruction {
